@@ -1072,7 +1072,7 @@ def vmdk_text_of(S, dlen, ctx):
                     return None
                 out.append(v)
             else:
-                ch = SymChar.of_term(t)
+                ch = SymChar.of_term(t, frozenset(range(256)))
                 if ch.in_set(frozenset([0])):
                     break
                 if ch.in_set(frozenset(range(128, 256))):
